@@ -56,6 +56,17 @@ def handleWire (st : St) : List String → Option (St × String)
         | some (b, []) => some (st, if msgEq S a b then "1" else "0")
         | _ => some (st, "ERR bad-second-value")
       | _ => some (st, "ERR bad-first-value")
+  -- `m == parse(bytes(m))` and `parse(bytes(m)) == m` on the model: EQRT <sid> <val>
+  | "EQRT" :: sid :: rest => do
+    let S ← st.schema sid
+    let (v, r) ← parseVal S rest
+    if !r.isEmpty then none else
+    match v, dumpVal S v with
+    | .msg c _ _ _ _, .ok bs =>
+      (match parse S c bs with
+       | .ok m' => some (st, s!"{if msgEq S v m' then 1 else 0} {if msgEq S m' v then 1 else 0}")
+       | .error e => some (st, s!"ERR parse {repr e}"))
+    | _, _ => some (st, "ERR dump")
   | "LEN" :: sid :: rest => do
     let S ← st.schema sid
     let (v, r) ← parseVal S rest
